@@ -13,7 +13,11 @@
 // limitations under the License.
 package ipp
 
-import "github.com/honeytrap/honeytrap/services/decoder"
+import (
+	"fmt"
+
+	"github.com/honeytrap/honeytrap/services/decoder"
+)
 
 type attribGroup struct {
 	tag byte //begin-attribute-group-tag
@@ -41,7 +45,7 @@ func (ag *attribGroup) decode(dec decoder.Decoder) error {
 		case valURI:
 			v = &valStr{tag: vtag}
 		case valRangeOfInt:
-			v = &valInt{tag: vtag}
+			v = &valRangeInt{tag: vtag}
 		case naturelLang:
 			v = &valStr{tag: vtag}
 		case mimeMediaType:
@@ -52,6 +56,10 @@ func (ag *attribGroup) decode(dec decoder.Decoder) error {
 			v = &valInt{tag: vtag}
 		case nameWithoutLang:
 			v = &valStr{tag: vtag}
+		}
+
+		if v == nil {
+			return fmt.Errorf("ipp: unsupported value tag %#x", vtag)
 		}
 
 		v.decode(dec)
